@@ -208,7 +208,7 @@ def body_fmt(ctx, case):
 
 def sub_fmt(ctx):
     transitions()
-    ctx.hyp(fmt_rows(), lambda c: body_fmt(ctx, c), ctx.n(250, 6000))
+    ctx.hyp(fmt_rows(), lambda c: body_fmt(ctx, c), ctx.n(750, 6000))
 
 
 # ---- relative times: exhaustive-ish integers and inverses
@@ -288,7 +288,7 @@ def body_zone(ctx, case):
 
 
 def sub_zone(ctx):
-    ctx.hyp(zone_case(), lambda c: body_zone(ctx, c), ctx.n(200, 3000))
+    ctx.hyp(zone_case(), lambda c: body_zone(ctx, c), ctx.n(600, 3000))
 
 
 # ---- verbs == functions
